@@ -92,6 +92,18 @@ def make(env, cat, mod, origin):
 
 def h_observers(env):
     """a sequence of read-only operations never changes what the message encodes to / reports"""
+    import sys
+
+    limit = sys.getrecursionlimit()
+    if env.params["cat"] == ["s2", "recursive"]:
+        sys.setrecursionlimit(1000)  # CPython's default, for the whole path (the symbolic workers otherwise run with 5000)
+    try:
+        _observers(env)
+    finally:
+        sys.setrecursionlimit(limit)
+
+
+def _observers(env):
     cat = catalogue.get(env.params["cat"])
     mod = shapes.build_bp(cat)
     val, m = make(env, cat, mod, env.params["origin"])
@@ -107,14 +119,25 @@ def h_observers(env):
                 raise
             # the property is about purity, not totality: a raising observer must still leave the message alone
             what = what + "(raised)"
-        after = snapshot(cat, m)
-        env.check("unchanged-after-" + what.replace("(raised)", ""), snap_equal(before, after), "%s: presence before %r after %r" % (what, before[1], after[1]))
-    env.check("still-equal-to-its-decoded-twin", m == twin)
+        name = what.replace("(raised)", "")
+        try:
+            after = snapshot(cat, m)
+            same = m == twin
+        except RecursionError:
+            # the observer left the message in a state in which it can no longer be encoded or compared
+            env.check("still-encodes-and-compares-after-" + name, False, "%s, then bytes() / == raise RecursionError" % what)
+            return
+        env.check("still-encodes-and-compares-after-" + name, True)
+        env.check("unchanged-after-" + name, snap_equal(before, after), "%s: presence before %r after %r" % (what, before[1], after[1]))
+        env.check("still-equal-to-its-decoded-twin", same)
 
 
 def mutate(env, cat, mod, c):
-    """a visible mutation of a message (first mutable position found)"""
+    """a visible mutation of a message: decoding further (unknown) fields into it, or the first mutable position found"""
     s = cat.shapes["M"]
+    if env.choose("mutation", 2) == 0:
+        c.parse(sym.wire(gen_unknown(env, "more", known=[f.number for f in s.fields])))
+        return True
     for f in s.fields:
         if f.group:
             continue
@@ -195,8 +218,6 @@ def units(tier):
     for name, c in cats:
         for origin in ORIGINS:
             for ob in OBSERVERS:
-                if ob == "to_dict-defaults" and name == "s2 recursive":
-                    continue  # to_dict(include_default_values=True) recurses forever on a self-recursive message (RecursionError; not a purity question)
                 u.append(("observer[%s | %s | %s]" % (name, origin, ob), h_observers, {"cat": c, "origin": origin, "n": 1, "observer": ob}))
             if tier == "thorough" or name in ("s2 oneofs", "s2 nested"):
                 u.append(("observers[%s | %s | any 2]" % (name, origin), h_observers, {"cat": c, "origin": origin, "n": 2}))
